@@ -53,7 +53,9 @@ impl<T, E> Stream for ObservableStream<T, E> {
           Poll::Ready(None)
         }
       },
-      None => Poll::Pending,
+      // every sender is gone (the source failed, or its observer was dropped):
+      // nothing can arrive any more, the stream is over
+      None => Poll::Ready(None),
     }
   }
 }
